@@ -1036,6 +1036,10 @@ class CursedHR:
                 nonlocal line_start
                 nonlocal display_entries
 
+                if display_help:
+                    line_start = max(0, line_start - (max_lines - 1))
+                    return
+
                 for _ in range(max_lines - 1):
                     old_entry_start = entry_start
                     old_line_start = line_start
@@ -1094,11 +1098,15 @@ class CursedHR:
                     line_start = 0
                     cursor = (0, cursor[1])
                 case "G":
-                    entry_start = len(self.entries) - 1
-                    line_start = -1
+                    if display_help:
+                        # help_message() clamps to the last line, the loop below fills the screen
+                        line_start = len(self.help_message(0, all_lines=True)) - 1
+                    else:
+                        entry_start = len(self.entries) - 1
+                        line_start = -1
 
-                    display_entries = self.calculate_display_entries(entry_start, line_start)
-                    page_up()
+                        display_entries = self.calculate_display_entries(entry_start, line_start)
+                        page_up()
                     cursor = (len(display_entries) - 1, cursor[1])
                 case "KEY_LEFT":
                     if cursor[1] > 0:
@@ -1285,7 +1293,7 @@ class CursedHR:
             self.display(display_entries, status)
             self.window.move(min(cursor[0], len(display_entries) - 1), cursor[1])
 
-    def help_message(self, line_start: int) -> list[DisplayEntry]:
+    def help_message(self, line_start: int, all_lines: bool = False) -> list[DisplayEntry]:
         options = {
             "f": "Enter filter input mode (beware!, this is executed with eval on each line)",
             "g": "Jump to the start of the file",
@@ -1351,6 +1359,11 @@ class CursedHR:
 
         for n, entry in enumerate(display_entries):
             entry.entry_line_number = n
+
+        if all_lines:
+            return display_entries
+
+        line_start = max(0, min(line_start, len(display_entries) - 1))
 
         return display_entries[line_start : max_lines + line_start]
 
